@@ -305,3 +305,20 @@ impl metrics::Source for BmpStateMachineMetrics {
         }
     }
 }
+
+// --- verif-hooks (add-only, off by default) --------------------------------
+#[cfg(feature = "verif-hooks")]
+impl BmpStateMachineMetrics {
+    /// The metrics of one router *without* creating the entry.
+    pub fn verif_router(
+        &self,
+        router_id: &Arc<RouterId>,
+    ) -> Option<Arc<RouterBmpMetrics>> {
+        self.routers.get(router_id)
+    }
+
+    /// Number of per-router entries (exported as `bmp_num_connected_routers`).
+    pub fn verif_num_routers(&self) -> usize {
+        self.routers.len()
+    }
+}
